@@ -769,13 +769,48 @@ var (
 	confirmWatchdog = 15 * time.Second
 )
 
+type hangEntry struct {
+	once      sync.Once
+	confirmed bool
+}
+
 type hangBook struct {
-	mu        sync.Mutex
-	state     map[string]string // key -> confirmed | unreproducible
-	culprits  sync.Map          // kind name whose request leaves the object unusable -> true
-	skipped   int64
-	unrepro   []string
-	confirmed int64
+	mu      sync.Mutex
+	state   map[string]*hangEntry // violation key -> confirmation in a fresh process
+	any     int32                 // set once some key is confirmed: later watchdogs are shorter
+	skipped int64
+	unrepro []string
+}
+
+func (hb *hangBook) entry(key string) *hangEntry {
+	hb.mu.Lock()
+	defer hb.mu.Unlock()
+	e := hb.state[key]
+	if e == nil {
+		e = &hangEntry{}
+		hb.state[key] = e
+	}
+	return e
+}
+
+func (hb *hangBook) isConfirmed(key string) bool {
+	hb.mu.Lock()
+	defer hb.mu.Unlock()
+	e := hb.state[key]
+	return e != nil && e.confirmed
+}
+
+// noDigestKey: the violation key a never-returning later request would get if the
+// request (kind k for input idx) is one for which no digest is defined; "" otherwise.
+func noDigestKey(s shape, k reqKind, idx int) string {
+	if _, ok := refServe(s.tx, s.spent, k, idx); ok {
+		return ""
+	}
+	what := fmt.Sprintf("ht=%02x", k.ht)
+	if refhash.ValidTaprootHashType(byte(k.ht)) {
+		what = "single-without-output"
+	}
+	return "order/taproot/" + what + "/later-request-never-returns"
 }
 
 type seqResult struct {
@@ -785,19 +820,14 @@ type seqResult struct {
 
 // hangKey names the violation after the earlier request (if any) for which no digest is
 // defined: that is the request after which the object stops answering.
-func hangKey(s shape, kinds []reqKind, seq []int, idxMode int, step int) (key, culprit string) {
+func hangKey(s shape, kinds []reqKind, seq []int, idxMode int, step int) string {
 	nin := len(s.tx.In)
 	for j := step - 1; j >= 0; j-- {
-		k := kinds[seq[j]]
-		if _, ok := refServe(s.tx, s.spent, k, seqIdx(idxMode, j, nin)); !ok {
-			what := fmt.Sprintf("ht=%02x", k.ht)
-			if refhash.ValidTaprootHashType(byte(k.ht)) {
-				what = "single-without-output"
-			}
-			return "order/taproot/" + what + "/later-request-never-returns", k.name
+		if k := noDigestKey(s, kinds[seq[j]], seqIdx(idxMode, j, nin)); k != "" {
+			return k
 		}
 	}
-	return "order/" + kinds[seq[step]].name + "/request-never-returns", ""
+	return "order/" + kinds[seq[step]].name + "/request-never-returns"
 }
 
 // confirmInFreshProcess replays the sequence in a child of this binary.
@@ -817,7 +847,7 @@ func confirmInFreshProcess(cj caseJ, key string) bool {
 
 func familyOrder(r *ev.Run, c *counters, samples *ev.Samples) (seqs int64, served map[string]bool) {
 	kinds := reqKinds()
-	hb := &hangBook{state: map[string]string{}}
+	hb := &hangBook{state: map[string]*hangEntry{}}
 	defer func() {
 		if hb.skipped > 0 {
 			samples.Add(map[string]interface{}{"family": "iii", "sequences_skipped_after_a_confirmed_never-returning_request": hb.skipped})
@@ -851,9 +881,11 @@ func familyOrder(r *ev.Run, c *counters, samples *ev.Samples) (seqs int64, serve
 						}
 						// sequences through a request already confirmed to wedge the object are not executed
 						skip := false
-						for _, ki := range j.seq[:len(j.seq)-1] {
-							if _, bad := hb.culprits.Load(kinds[ki].name); bad {
-								skip = true
+						if atomic.LoadInt32(&hb.any) != 0 {
+							for jj, ki := range j.seq[:len(j.seq)-1] {
+								if k := noDigestKey(s, kinds[ki], seqIdx(mode, jj, len(s.tx.In))); k != "" && hb.isConfirmed(k) {
+									skip = true
+								}
 							}
 						}
 						if skip {
@@ -869,37 +901,38 @@ func familyOrder(r *ev.Run, c *counters, samples *ev.Samples) (seqs int64, serve
 						}()
 						var k, what string
 						var idxs []int
-						timer := time.NewTimer(seqWatchdog)
+						wd := seqWatchdog
+						if atomic.LoadInt32(&hb.any) != 0 {
+							wd = seqWatchdog / 6 // the tree is already known to be defective; every timeout is still confirmed in a fresh process
+						}
+						timer := time.NewTimer(wd)
 						select {
 						case x := <-resCh:
 							timer.Stop()
 							k, what, idxs = x.key, x.what, x.idxs
 						case <-timer.C:
 							st := int(atomic.LoadInt32(&step))
-							key, culprit := hangKey(s, kinds, seq, mode, st)
+							key := hangKey(s, kinds, seq, mode, st)
 							var rq []reqJ
 							for i := 0; i <= st; i++ {
 								rq = append(rq, reqJ{kinds[seq[i]].name, seqIdx(mode, i, len(s.tx.In))})
 							}
 							cj := caseJ{Family: "order", Tx: s.tx.Serialize(true), Spent: spentToJ(s.spent), Seq: rq, Label: s.name}
-							hb.mu.Lock()
-							stt := hb.state[key]
-							if stt == "" {
-								if confirmInFreshProcess(cj, key) {
-									stt = "confirmed"
-									hb.confirmed++
-								} else {
-									stt = "unreproducible"
-									hb.unrepro = append(hb.unrepro, fmt.Sprintf("%s: request %d of %v on %s did not return within %v but returned in a fresh process", key, st, rq, s.name, seqWatchdog))
+							e := hb.entry(key)
+							e.once.Do(func() {
+								ok := confirmInFreshProcess(cj, key)
+								hb.mu.Lock()
+								e.confirmed = ok
+								if !ok {
+									hb.unrepro = append(hb.unrepro, fmt.Sprintf("%s: request %d of %v on %s did not return within %v but returned in a fresh process", key, st, rq, s.name, wd))
 								}
-								hb.state[key] = stt
-							}
-							hb.mu.Unlock()
-							if stt == "confirmed" {
-								if culprit != "" {
-									hb.culprits.Store(culprit, true)
+								hb.mu.Unlock()
+								if ok {
+									atomic.StoreInt32(&hb.any, 1)
 								}
-								c.report(1<<60+j.n, key, fmt.Sprintf("request %d (%s, input %d) on one transaction object never returns (no answer within %v, confirmed in a fresh process); requests served before it on that object: %v", st, rq[st].Kind, rq[st].Idx, seqWatchdog, rq[:st]), cj)
+							})
+							if hb.isConfirmed(key) {
+								c.report(1<<60+j.n, key, fmt.Sprintf("request %d (%s, input %d) on one transaction object never returns (no answer within %v, confirmed in a fresh process); requests served before it on that object: %v", st, rq[st].Kind, rq[st].Idx, wd, rq[:st]), cj)
 							}
 							atomic.AddInt64(&n, 1)
 							continue
